@@ -71,8 +71,10 @@ def ndarray2utpm(A):
     A = numpy.ravel(A)
     retval = zeros(shp,dtype=A[0])
 
-    for na, a in enumerate(A):
-        retval[na] = a
+    # A has been flattened: address the elements of retval by their
+    # multi-index, not by the flat position
+    for idx, a in zip(numpy.ndindex(*shp), A):
+        retval[idx] = a
 
     return retval
 
